@@ -170,6 +170,16 @@ func soloSweep(c c01Sweep) error {
 	default:
 		hist = make([]uint32, n)
 	}
+	if n == 1 {
+		// a single cell would overflow 32 bits: sweep in two halves
+		a := sweepRange(1, 0, 1<<31, make([]uint32, 1), nil, nil)
+		b := sweepRange(1, 1<<31, 1<<32, make([]uint32, 1), nil, nil)
+		ev.Leaves(1 << 32)
+		if a.Err != "" || b.Err != "" {
+			return fmt.Errorf("%s %s", a.Err, b.Err)
+		}
+		return checkCounts(1, a.Accepted+b.Accepted, a.Rejected+b.Rejected, func(uint32) uint64 { return a.Accepted + b.Accepted })
+	}
 	r := sweepRange(n, 0, 1<<32, hist, bits, s8)
 	ev.Leaves(int64(r.Accepted + r.Rejected))
 	if r.Err != "" {
@@ -206,7 +216,7 @@ func sharedSweep(t *testing.T, n uint32, idx int) {
 		return
 	}
 	defer f.Close()
-	size := 64 + 4*int(n)
+	size := 64 + 8*int(n)
 	if err := f.Truncate(int64(size)); err != nil {
 		ev.Inconclusive("sweep file: " + err.Error())
 		return
@@ -218,7 +228,7 @@ func sharedSweep(t *testing.T, n uint32, idx int) {
 	}
 	defer syscall.Munmap(mem)
 	hdr := (*[8]uint64)(unsafe.Pointer(&mem[0])) // 0 done, 1 accepted, 2 rejected, 3 failed
-	shared := unsafe.Slice((*uint32)(unsafe.Pointer(&mem[64])), n)
+	shared := unsafe.Slice((*uint64)(unsafe.Pointer(&mem[64])), n) // 64-bit cells: bound 1 collects all 2^32 words
 	lo := (uint64(1) << 32) * uint64(ev.Cfg.Shard) / uint64(N)
 	hi := (uint64(1) << 32) * uint64(ev.Cfg.Shard+1) / uint64(N)
 	hist := make([]uint32, n)
@@ -236,7 +246,7 @@ func sharedSweep(t *testing.T, n uint32, idx int) {
 	} else {
 		for i, h := range hist {
 			if h != 0 {
-				atomic.AddUint32(&shared[i], h)
+				atomic.AddUint64(&shared[i], uint64(h))
 			}
 		}
 		atomic.AddUint64(&hdr[1], r.Accepted)
@@ -244,7 +254,7 @@ func sharedSweep(t *testing.T, n uint32, idx int) {
 	}
 	if done := atomic.AddUint64(&hdr[0], 1); done == uint64(N) && atomic.LoadUint64(&hdr[3]) == 0 {
 		// last one in: validate the merged histogram
-		err := checkCounts(n, atomic.LoadUint64(&hdr[1]), atomic.LoadUint64(&hdr[2]), func(i uint32) uint64 { return uint64(shared[i]) })
+		err := checkCounts(n, atomic.LoadUint64(&hdr[1]), atomic.LoadUint64(&hdr[2]), func(i uint32) uint64 { return shared[i] })
 		if err != nil {
 			ev.AddViolation("c01_sweep", c01Sweep{n}, err.Error())
 			t.Errorf("%v", err)
